@@ -72,3 +72,28 @@ Theorem C18_source_chunk_size : forall m e given l,
    = dres_out (mem_details (actual m e) given l).
 Proof. exact src_new_chunk_memory_details_ok. Qed.
 Print Assumptions C18_source_chunk_size.
+
+(* ---- the collections part: growth of a Vec is geometric ---- *)
+From BV Require Import VecModel VecFacts VecFacts2.
+
+Theorem C18_vec_reserve_doubles : forall e v c extra v',
+  repr e v c -> try_reserve e v extra false = inl v' ->
+  v_cap v < v_len v + extra -> 2 * v_cap v <= v_cap v'.
+Proof. exact reserve_doubles. Qed.
+
+(* k reallocations while pushing any sequence of elements leave a capacity of at least 2^(k-1):
+   the number of reallocations is logarithmic, for every element size *)
+Theorem C18_vec_reallocations_logarithmic : forall e xs v c k v' k',
+  repr e v c -> (k = 0%nat \/ 2 ^ N.of_nat (k - 1) <= v_cap v) ->
+  push_count e v xs k = Ret (v', k') ->
+  repr e v' (c ++ xs) /\ (k' = 0%nat \/ 2 ^ N.of_nat (k' - 1) <= v_cap v').
+Proof. exact pushes_realloc_log. Qed.
+
+(* a reservation is honoured: afterwards that many elements fit without another reservation *)
+Theorem C18_vec_reserved_capacity : forall e v c extra exact v',
+  repr e v c -> reserve e v extra exact = Ret v' -> repr e v' c /\ v_len v + extra <= v_cap v'.
+Proof. intros e v c extra exact v' R H. destruct (reserve_spec e v c extra exact v' R H) as (A & B & _). split; assumption. Qed.
+
+Print Assumptions C18_vec_reserve_doubles.
+Print Assumptions C18_vec_reallocations_logarithmic.
+Print Assumptions C18_vec_reserved_capacity.
